@@ -132,15 +132,25 @@ type solverSpec struct {
 // solverSeed comes from VERIF_SEED; it only perturbs the solvers' heuristics.
 var solverSeed = 0
 
+// The portfolio. Answers "unsat" are sound whatever the configuration, so diversity only adds robustness:
+// the same solver with another random seed or without model-based instantiation often decides what the
+// default configuration does not. The seeds are fixed (VERIF_SEED is recorded in the evidence but does not
+// perturb the solvers: a proof must not depend on it).
 var solvers = []solverSpec{
 	{"z3-new", func(ms int) []string {
-		return []string{"z3-new", fmt.Sprintf("-t:%d", ms), fmt.Sprintf("smt.random_seed=%d", solverSeed), fmt.Sprintf("sat.random_seed=%d", solverSeed)}
+		return []string{"z3-new", fmt.Sprintf("-t:%d", ms), "smt.random_seed=0", "sat.random_seed=0"}
 	}},
 	{"z3", func(ms int) []string {
-		return []string{"z3", fmt.Sprintf("-t:%d", ms), fmt.Sprintf("smt.random_seed=%d", solverSeed), fmt.Sprintf("sat.random_seed=%d", solverSeed)}
+		return []string{"z3", fmt.Sprintf("-t:%d", ms), "smt.random_seed=0", "sat.random_seed=0"}
 	}},
 	{"cvc5", func(ms int) []string {
-		return []string{"cvc5", fmt.Sprintf("--tlimit-per=%d", ms), "--dt-nested-rec", "--strings-exp", "--incremental", fmt.Sprintf("--seed=%d", solverSeed)}
+		return []string{"cvc5", fmt.Sprintf("--tlimit-per=%d", ms), "--dt-nested-rec", "--strings-exp", "--incremental", "--seed=0"}
+	}},
+	{"z3-new/ematch", func(ms int) []string {
+		return []string{"z3-new", fmt.Sprintf("-t:%d", ms), "smt.mbqi=false", "smt.auto_config=false", "smt.random_seed=1", "sat.random_seed=1"}
+	}},
+	{"z3-new/seed2", func(ms int) []string {
+		return []string{"z3-new", fmt.Sprintf("-t:%d", ms), "smt.random_seed=2", "sat.random_seed=2"}
 	}},
 }
 
@@ -323,7 +333,7 @@ func dischargeAll(dir string, decls func(vc *FuncVC) string, vcs []*FuncVC, filt
 					saved, savedBlk := j.o.Goal, j.o.Blk
 					for i, g := range j.o.SubGoals {
 						j.o.Goal = g
-						if i < len(j.o.SubBlks) {
+						if i < len(j.o.SubBlks) && os.Getenv("GOVC_NOSITESLICE") == "" {
 							j.o.Blk = j.o.SubBlks[i]
 						}
 						q := buildQuery(decls(j.vc), j.vc, j.o, false)
